@@ -81,15 +81,15 @@ RoundOk(t) == LET want == RoundBits(FromDec(t.n)) IN \A k \in 1..Len(t.forms) : 
 
 \* double -> text -> double
 IsDig(cu) == cu >= 48 /\ cu <= 57
-RECURSIVE SigDigits(_, _, _, _)
-SigDigits(s, i, started, n) ==     \* significant digits of the mantissa part (up to e/E): leading zeros do not count
-  IF i > Len(s) \/ s[i] \in {101, 69} THEN n
-  ELSE IF IsDig(s[i]) THEN (IF s[i] = 48 /\ ~started THEN SigDigits(s, i + 1, FALSE, n) ELSE SigDigits(s, i + 1, TRUE, n + 1))
-  ELSE SigDigits(s, i + 1, started, n)
+\* significant digits of the mantissa part (up to e/E): from the first to the last non-zero digit
+RECURSIVE MantDigits(_, _, _)
+MantDigits(s, i, acc) == IF i > Len(s) \/ s[i] \in {101, 69} THEN acc ELSE MantDigits(s, i + 1, IF IsDig(s[i]) THEN Append(acc, s[i]) ELSE acc)
+SigCount(ds) == LET nz == {k \in 1..Len(ds) : ds[k] # 48} IN
+                IF nz = {} THEN 0 ELSE (CHOOSE k \in nz : \A m \in nz : m <= k) - (CHOOSE k \in nz : \A m \in nz : k <= m) + 1
 DblOk(t) ==
   /\ JG!Number(t.out, 1) = Len(t.out) + 1                                        \* a JSON number, nothing else
   /\ JT!NumClass(t.out) = "real"                                                 \* stays a floating-point value
-  /\ SigDigits(t.out, 1, FALSE, 0) <= 17
+  /\ SigCount(MantDigits(t.out, 1, <<>>)) <= 17
   /\ t.isdbl
   /\ (t.back = t.bits \/ (t.bits = <<128,0,0,0,0,0,0,0>> /\ t.back = <<0,0,0,0,0,0,0,0>>))
 
